@@ -22,6 +22,8 @@ const INPUTS = {
   chained: { file: '/p/e.js', code: 'function f(a, b) {\n  return `${a}${b}`\n}\n//# sourceMappingURL=data:application/json;base64,' + b64(MAP_A) },
   notmod_map: { file: '/p/f.js', code: 'const x = 1;\n//# sourceMappingURL=data:application/json;base64,' + b64(MAP_B) },
   twocomments: { file: '/p/g.js', code: 'function f(a, b) { return a + b } //# sourceMappingURL=data:application/json;base64,' + b64(MAP_A) + '\nfunction g(c) { return c + 1 }\n//# sourceMappingURL=data:application/json;base64,' + b64(MAP_B) },
+  twocomments_last_missing: { file: '/p/j.js', code: 'function f(a, b) { return a + b } //# sourceMappingURL=data:application/json;base64,' + b64(MAP_A) + '\nfunction g(c) { return c + 1 }\n//# sourceMappingURL=nowhere.js.map\n' },
+  threecomments: { file: '/p/k.js', code: 'function f(a, b) { return a + b } //# sourceMappingURL=missing1.map\nfunction g(c) { return c + 1 } //# sourceMappingURL=data:application/json;base64,' + b64(MAP_B) + '\nfunction h(d) { return d + 2 }\n//# sourceMappingURL=missing2.map' },
   literals: { file: '/p/h.js', code: 'const secret = "a long secret literal";\nfunction f(a) { const k = { key: "another long literal" }; return a + "yet another long literal" + secret }\n' },
   long: { file: '/p/i.js', code: 'function f(a, b, o) {\n  { let x = a + g() + h(); }\n  { o.p += b.trim() + `${a}${g()}`; }\n  for (const q of o) { if (q?.trim().length) { b += q } }\n  return a.concat(b, g())\n}\n' }
 }
